@@ -453,7 +453,7 @@ func c07Prop(t *rapid.T) {
 }
 
 func TestC07(t *testing.T) {
-	evid.Extra("rule", "C07: rapid-generated histories (1..4 operations quick, 1..7 thorough) of install / upgrade / install --replace / rollback / uninstall, with and without take-ownership, some failing half-way through an injected fault, some with the ownership check's own read of a foreign object rejected (403/500); resources and placed objects may name a namespace of their own (same kind and name elsewhere is a different object); before every operation 0-3 objects are placed in the cluster for pool resources that do not exist yet, in one of nine ownership variants (no metadata, owned by another release name, right name but other namespace annotation, label only, one annotation missing, annotations without label, wrong label value, correctly owned). Conflict is decided independently of Helm: some resource of the new manifest exists live and does not carry managed-by=Helm plus both meta.helm.sh annotations of this release. Conflict without take-ownership => error, no mutating request in the log, cluster and stored history byte-identical; otherwise after success every manifest resource carries the ownership metadata; every DELETE in any operation targets an object named by a manifest or hook of this release. Non-trivial = an operation whose manifest names at least one harness-placed pre-existing object; distinct by the full step sequence.")
+	evid.Extra("rule", "C07: rapid-generated histories (1..4 operations quick, 1..7 thorough) of install / upgrade / install --replace / rollback / uninstall, with and without take-ownership, installs and upgrades without fault with and without --atomic, one manifest resource in eight setting app.kubernetes.io/managed-by itself, some failing half-way through an injected fault, some with the ownership check's own read of a foreign object rejected (403/500); resources and placed objects may name a namespace of their own (same kind and name elsewhere is a different object); before every operation 0-3 objects are placed in the cluster for pool resources that do not exist yet, in one of nine ownership variants (no metadata, owned by another release name, right name but other namespace annotation, label only, one annotation missing, annotations without label, wrong label value, correctly owned). Conflict is decided independently of Helm: some resource of the new manifest exists live and does not carry managed-by=Helm plus both meta.helm.sh annotations of this release. Conflict without take-ownership => error, no mutating request in the log, cluster and stored history byte-identical; otherwise after success every manifest resource carries the ownership metadata; every DELETE in any operation targets an object named by a manifest or hook of this release. Non-trivial = an operation whose manifest names at least one harness-placed pre-existing object; distinct by the full step sequence.")
 	evid.Extra("assumptions", []string{"charts have no crds/ directory (CRDs are installed before the ownership check by documented design)", c01Assumptions[0]})
 	rapid.Check(t, c07Prop)
 }
